@@ -264,3 +264,22 @@ package federation
 //@ ensures [C17] !cleanStart ==> nextID == old(s.sessions[nodeName].nextEventID) && s.sessions[nodeName] == old(s.sessions[nodeName])
 //@ ensures [C17] cleanStart ==> nextID == 0 && has(s.sessions, nodeName) && s.sessions[nodeName] != nil && isfresh(s.sessions[nodeName]) && s.sessions[nodeName].id == id && s.sessions[nodeName].nodeName == nodeName && s.sessions[nodeName].nextEventID == 0
 //@ ensures [C17] forall n string :: n != nodeName ==> has(s.sessions, n) == old(has(s.sessions, n)) && s.sessions[n] == old(s.sessions[n])
+
+// nodeJoin: every named node other than this one is a peer afterwards; a node that was a peer keeps its peer object
+// (and its queue with what is on it); a new peer gets a queue of its own — so "every peer has its own queue"
+// (peersOK, which sendMessage relies on) is kept; this node never becomes its own peer.
+//@ func newEventQueue trusted
+//@ ensures result != nil && isfresh(result)
+//@ func (*Federation).nodeJoin
+//@ props C17
+//@ requires [C17] f != nil && peersOK(f)
+//@ modifies heap, chanlog
+//@ abstract call var servePeerEventStream pure
+//@ loop 1 invariant f != nil && f == old(f) && f.peers == old(f.peers) && f.nodeName == old(f.nodeName) && peersOK(f) && member.Members == old(member.Members)
+//@ loop 1 invariant forall n string :: old(has(f.peers, n)) ==> has(f.peers, n) && f.peers[n] == old(f.peers[n]) && f.peers[n].queue == old(f.peers[n].queue)
+//@ loop 1 invariant forall j int :: 0 <= j && j <= $k && member.Members[j].Name != f.nodeName ==> has(f.peers, member.Members[j].Name)
+//@ loop 1 invariant !old(has(f.peers, f.nodeName)) ==> !has(f.peers, f.nodeName)
+//@ ensures [C17] peersOK(f)
+//@ ensures [C17] forall n string :: old(has(f.peers, n)) ==> has(f.peers, n) && f.peers[n] == old(f.peers[n]) && f.peers[n].queue == old(f.peers[n].queue)
+//@ ensures [C17] forall j int :: 0 <= j && j < len(member.Members) && member.Members[j].Name != f.nodeName ==> has(f.peers, member.Members[j].Name)
+//@ ensures [C17] !old(has(f.peers, f.nodeName)) ==> !has(f.peers, f.nodeName)
